@@ -801,10 +801,19 @@ func (self *PathNode) handleChild(in *[]PathNode, lp *int, cp *int, p *thrift.Bi
 	var l = *lp
 	guardPathNodeSlice(&con, l)
 	if l >= len(con) {
+		// NOTICE: the slice may be reused from a previous load: slots skipped by id/hash storage
+		// must not expose its stale nodes
+		for i := len(con); i < l; i++ {
+			con[:l][i] = PathNode{}
+		}
 		con = con[:l+1]
 	}
 	v := &con[l]
 	l += 1
+	if !(recurse && et.IsComplex()) {
+		// children of a previous (recursive) load must not survive a lazy one
+		v.Next = v.Next[:0]
+	}
 
 	ss := p.Read
 	buf := p.Buf
@@ -1194,6 +1203,10 @@ func (self *PathNode) scanChildren(p *thrift.BinaryProtocol, recurse bool, opts 
 				// NOTE: we use original count*2 as the capacity of the hash table.
 				N = size * 2
 				guardPathNodeSlice(&con, N-1)
+				// NOTICE: the slice may be reused from a previous load: every slot of the table must start empty
+				for i := range con[:N] {
+					con[:N][i] = PathNode{}
+				}
 				conAddr = *(*unsafe.Pointer)(unsafe.Pointer(&con))
 				c = N
 			}
@@ -1218,6 +1231,10 @@ func (self *PathNode) scanChildren(p *thrift.BinaryProtocol, recurse bool, opts 
 				// NOTE: we use original count*2 as the capacity of the hash table.
 				N = size * 2
 				guardPathNodeSlice(&con, N-1)
+				// NOTICE: the slice may be reused from a previous load: every slot of the table must start empty
+				for i := range con[:N] {
+					con[:N][i] = PathNode{}
+				}
 				conAddr = *(*unsafe.Pointer)(unsafe.Pointer(&con))
 				c = N
 			}
